@@ -264,7 +264,7 @@ func makeUmemo(twoU, n1 int, t []int) []map[ukey]float64 {
 	for A_2i := range A[2] {
 		Asum := 0.0
 		r2Low := maxint(0, A_2i.n1-t[0])
-		r2High := (A_2i.twoU - A_2i.n1*(t[0]-A_2i.n1)) / N_2
+		r2High := floordiv(A_2i.twoU-A_2i.n1*(t[0]-A_2i.n1), N_2)
 		for r2 := r2Low; r2 <= r2High; r2++ {
 			Asum += mathx.Choose(t[0], A_2i.n1-r2) *
 				mathx.Choose(t[1], r2)
@@ -296,6 +296,15 @@ func makeUmemo(twoU, n1 int, t []int) []map[ukey]float64 {
 	}
 
 	return A
+}
+
+// floordiv returns ⌊a/b⌋ for b > 0.
+func floordiv(a, b int) int {
+	q := a / b
+	if a%b < 0 {
+		q--
+	}
+	return q
 }
 
 func twoUmin(n1 int, t, a []int) int {
